@@ -139,7 +139,9 @@ def run_harness(binary, cases, wd, name="run", timeout=3600, env_extra=None):
 
 def _tlc_cmd(workers, metadir, cfg, module, extra=()):
     return ["java", "-XX:+UseParallelGC", "-cp", TLA_JAR, "tlc2.TLC", "-workers", str(workers),
-            "-metadir", metadir, "-cleanup", "-noGenerateSpecTE", *extra, "-config", cfg, module]
+            "-metadir", metadir, "-cleanup", "-noGenerateSpecTE", "-checkpoint", "0", *extra, "-config", cfg, module]
+    # -checkpoint 0: no periodic checkpoints (the depth-first StateDeque queue of the trace validations cannot be
+    # checkpointed: a validation running longer than 30 minutes died with UnsupportedOperationException)
 
 
 _STATS = re.compile(r"(\d+) states generated, (\d+) distinct states found")
